@@ -75,6 +75,12 @@ type Dir struct {
 	// Hoisted: a path-bearing method written right after a URL block as if it
 	// were nested in it (it resolves to the URL's enclosing context).
 	Hoisted bool `json:"hoisted,omitempty"`
+	// Included (Kw == "INCLUDE" only): the directives that were moved into the
+	// file named by Params[0]. An INCLUDE node is transparent for the meaning of
+	// the document: it stands for its Included directives.
+	Included []*Dir `json:"included,omitempty"`
+	// NoFinalNewline (INCLUDE only): the included file does not end with a line end.
+	NoFinalNewline bool `json:"noFinalNewline,omitempty"`
 }
 
 // Doc is a document: the top-level directives in order (JSIGHT first).
@@ -94,7 +100,57 @@ func (d *Dir) Copy() *Dir {
 	for _, ch := range d.Children {
 		c.Children = append(c.Children, ch.Copy())
 	}
+	c.Included = nil
+	for _, ch := range d.Included {
+		c.Included = append(c.Included, ch.Copy())
+	}
 	return &c
+}
+
+// Flatten replaces every INCLUDE node by the directives it stands for.
+func Flatten(list []*Dir) []*Dir {
+	var out []*Dir
+	for _, d := range list {
+		if d.Kw == "INCLUDE" {
+			out = append(out, Flatten(d.Included)...)
+			continue
+		}
+		c := *d
+		c.Children = Flatten(d.Children)
+		out = append(out, &c)
+	}
+	return out
+}
+
+// Flat returns the document with all INCLUDE nodes resolved.
+func (doc *Doc) Flat() *Doc { return &Doc{Top: Flatten(doc.Top)} }
+
+// HasIncludes reports whether the document holds INCLUDE nodes.
+func (doc *Doc) HasIncludes() bool {
+	has := false
+	doc.walkAll(func(d *Dir) {
+		if d.Kw == "INCLUDE" {
+			has = true
+		}
+	})
+	return has
+}
+
+// walkAll visits every node, INCLUDE nodes and their included directives too.
+func (doc *Doc) walkAll(f func(d *Dir)) {
+	var rec func(d *Dir)
+	rec = func(d *Dir) {
+		f(d)
+		for _, c := range d.Children {
+			rec(c)
+		}
+		for _, c := range d.Included {
+			rec(c)
+		}
+	}
+	for _, d := range doc.Top {
+		rec(d)
+	}
 }
 
 func (s *Schema) Copy() *Schema {
@@ -204,6 +260,9 @@ type resNode struct {
 // reference walk and reports the first directive that would land under a
 // different parent than in the model ("" when the text means the model).
 func (doc *Doc) ResolveCheck() string {
+	if doc.HasIncludes() {
+		return doc.Flat().ResolveCheck()
+	}
 	var cur *resNode
 	var problem string
 	var place func(d, wantParent *Dir) *resNode
